@@ -58,7 +58,10 @@ func (conn *Conn) close() {
 	}
 
 	/* call FidDestroy for all remaining fids; requests still executing may be
-	 * dropping theirs from the table meanwhile */
+	 * dropping theirs from the table meanwhile. A fid whose Tattach, Tauth or
+	 * Twalk is still executing is left to that request: the file server is
+	 * setting it up right now, and retain() will not keep it on a closed
+	 * connection. */
 	conn.Lock()
 	fids := make([]*SrvFid, 0, len(conn.fidpool))
 	for _, fid := range conn.fidpool {
@@ -66,7 +69,12 @@ func (conn *Conn) close() {
 	}
 	conn.Unlock()
 	for _, fid := range fids {
-		fid.destroy()
+		fid.Lock()
+		pending := fid.pending
+		fid.Unlock()
+		if !pending {
+			fid.destroy()
+		}
 	}
 	verifPoint("close.end", conn)
 }
